@@ -211,9 +211,11 @@ class Net:
             fut = loop.create_future()
             loop.call_soon(lambda: fut.done() or fut.set_result(None))
             await fut
-        if not ok:
+        if ok is not True:
             self.obs("refused")
-            raise ConnectionRefusedError("sim: connection refused")
+            # the attempt fails: refused by default, or with the error the environment chose (unreachable host or
+            # network and name resolution failures are OSErrors that are not ConnectionErrors)
+            raise ok if isinstance(ok, BaseException) else ConnectionRefusedError("sim: connection refused")
         protocol = protocol_factory()
         t = SimTransport(loop, protocol, self, len(self.conns))
         self.conns.append(t)
@@ -226,10 +228,10 @@ class Net:
             self.on_open(t)
         return t, protocol
 
-    def resolve(self, accept: bool, index: int = 0):
+    def resolve(self, accept: bool, index: int = 0, exc=None):
         fut, _ = self.pending.pop(index)
         if not fut.done():
-            fut.set_result(accept)
+            fut.set_result(accept if exc is None or accept else exc)
 
     def resolve_all(self, accept=True):
         while self.pending:
